@@ -5,7 +5,7 @@
 // read-only accessors of lib/others/memory/verif_export.go).
 // Model: lean oracle_c20 (Model/Alloc.lean, the definitions Props/C20.lean proves the invariant about).
 //
-// Two streams:
+// Three streams:
 //  1. single-threaded traces, step by step against the oracle: returned address canonicalised to
 //     (page#, slot#), Len/Cap/Data of the returned slice, counters, the complete per-class state
 //     (current page, global free list in order, page chain, brk/used/free and per-page free list of
@@ -13,7 +13,10 @@
 //  2. 2..16 goroutines, invariant only: property predicate evaluated on the real code (fill pattern
 //     intact when freed / relocated / at the end, no two live slot ranges overlap, Len/Cap/Data,
 //     Allocs = number live at every barrier, relocate exactly once per moved allocation).
-// In both streams the property's own predicate is evaluated on the real code independently of the model.
+//  3. steady-state churn (churn.go): 2..4 goroutines Free/Malloc records of the same one to three size classes
+//     while those classes are in free-list mode; same predicates plus the slot-by-slot structure check, panics
+//     and hangs inside Malloc/Free.  Quick and thorough.  (The -race variant of stream 2 is thorough only.)
+// In all streams the property's own predicate is evaluated on the real code independently of the model.
 package main
 
 import (
@@ -1594,10 +1597,10 @@ func main() {
 		"os.Getpagesize() = 4096 and a 64-bit target (slice header 24 bytes, page_header 32 bytes: recomputed from the struct declaration on every run)",
 		"callers free only pointers returned by Malloc and not yet freed, do not write outside [0,Len) and do not modify the slice header",
 		"DefragAllImproved runs while no Malloc/Free is in progress (as its comment requires)",
-		"every Malloc/Free body runs under the per-class mutex: one model step per call covers all interleavings of calls; memory-level races are outside the model (the concurrent stream explores them on the real code only)",
+		"one model step per Malloc/Free call covers all interleavings of calls because each body runs under the mutex of the class it edits: checked source fact (gen_c20/locks.go extracts the Lock() index and every per-class access of Malloc/Free and their callees; Props.C20.malloc_locks_own_class / free_locks_own_class); sync.Mutex itself and memory-level races inside slot memory are outside the model (the concurrent and churn streams explore them on the real code only)",
 		"pointer layer: the model keeps every link field (node.prev/next/prevInPage/nextInPage, header.prev/next/freeList, lists/firstPage/lastPage) next to the abstract lists; Props.C20.rep_inv proves they spell the lists, the harness compares every field reachable through pointers with the real allocator's memory (VerifLinks) and also walks next/prev in both directions",
 		"sort.Slice is not stable: the model takes the evacuation order observed on the real allocator and checks it against the selection rule (sorted by used, stop when recordsToFree >= target); theorems hold for every legal order",
 	}
-	r.Finish("corpus: every size-class boundary (slot-1, slot, slot+1 for all classes of the generated table), the private-mapping boundaries and 200 KiB; page-edge traces; random mixed traces; single-class traces; defragmentation scenarios at 5 fragmentation patterns (uniform, whole pages emptied, equal use on every page, at the 12-page threshold, everything freed) each followed by an aftermath and a second pass; 2..16-goroutine phases with barrier checks and defrag. distinct = distinct traces (name, length, middle op); every trace reaches Malloc and Free on the real allocator",
+	r.Finish("corpus: every size-class boundary (slot-1, slot, slot+1 for all classes of the generated table), the private-mapping boundaries and 200 KiB; page-edge traces; random mixed traces; single-class traces; defragmentation scenarios at 5 fragmentation patterns (uniform, whole pages emptied, equal use on every page, at the 12-page threshold, everything freed) each followed by an aftermath and a second pass; 2..16-goroutine phases with barrier checks and defrag; steady-state churn cases (2..4 goroutines sharing 1..3 size classes in free-list mode, the classes walking a permutation of all dense small classes). distinct = distinct traces (name, length, middle op); every trace reaches Malloc and Free on the real allocator",
 		"single-threaded traces are compared step by step with the Lean model (address, Len/Cap, counters, complete per-class state incl. free-list order, every link field of the pointer layer, relocate sequence); independently of the model the property predicate is evaluated on the real allocator: fill pattern on free/relocate/end, overlap registry over all live slot ranges, Len/Cap/Data, Allocs = live, slot-by-slot 'live xor on free list', relocate exactly once")
 }
